@@ -3299,6 +3299,25 @@ def c03_flags(obs):
     return k2, k3, k4
 
 
+def obs_text(n):
+    """inverse of parse_obs"""
+    if isinstance(n, str):
+        return n
+    if n.kind == "{":
+        return n.tag + "{" + ";".join(obs_text(x) for x in n.items) + "}"
+    return n.tag + "[" + ",".join(obs_text(x) for x in n.items) + "]"
+
+
+def c03_fixmaps(obs):
+    """the observation theorem C03.media_roundtrip_general predicts for the re-parsed value: every map covered by the keys
+    of its own segment (as written: a derived IV is not written)"""
+    root = parse_obs(obs)
+    for seg in root[10].items:
+        if seg[3] != "-":
+            seg[3][2].items = [parse_obs(re.sub(r"ivN\d+", "ivM", obs_text(k))) for k in seg[2].items]
+    return obs_text(root)
+
+
 def c03_build(ctx):
     rng = ctx.rng
     cases = []
@@ -3347,6 +3366,13 @@ def c03_oracle(ctx, cases, impl, model):
         k2, k3, k4 = c03_flags(r.obs)
         what = ("parsing the written text gives %s instead of the original content" % ("an error" if rr in ("err", "panic") else "a different value")) if rr != "=" else \
             "the text written from the re-parsed value differs from the first text"
+        # finding K2 is exactly: the re-parsed value is the original with every map covered by its segment's keys, and the
+        # second text equals the first (theorems media_roundtrip_general / media_fixed_point_general); anything else is new
+        if k2:
+            try:
+                k2 = rr == c03_fixmaps(r.obs) and r.get("F") == "1"
+            except Exception:
+                k2 = False
         fails.append(dict(describe(c.line, a), what=what, law="round-trip" if rr != "=" else "fixed-point", written=C.unhx(r.get("T", ""))[:3000],
                           key_between_map_and_uri=k2, reset_then_fewer_formats=k3, default_versions_dropped=k4))
     return fails
